@@ -457,9 +457,56 @@ def hb_code_table(ctx, props=('C09', 'C10')):
                      'heartbeat state byte %d decodes to %s, required %s (%d)' % (code, sorted(rets, key=str), inv.get(code, 'CO_INVALID'), want))
 
 
+def cascade_order(ctx):
+    """Identifier 0 belongs to NMT.  A decoder whose cached identifier is 0 while its service is not configured (SYNC after
+    COSyncInit / without 1005h / after every reset communication) would claim every NMT command if it saw the frame
+    first: in the dispatch cascade the NMT decoder is consulted before every such decoder."""
+    m = ctx.m
+    f = 'CONodeProcess'
+    m.need(f, 'CONmtCheck', 'COSyncUpdate')
+    g = m.cfg(f)
+
+    def reaches(callee, name, depth=0):
+        # a stage may have been extracted into a helper the tables do not know: look through such helpers
+        if callee == name:
+            return True
+        if callee is None or depth > 3 or not m.is_new_helper(callee):
+            return False
+        return any(reaches(c2, name, depth + 1) for c2 in m.callees(callee))
+
+    def call_nodes(name):
+        return [nd.id for nd in g.nodes if nd.x is not None and any(c.k == 'call' and reaches(callee_name(c), name) for c in walk(nd.x))]
+    nmt_nodes = call_nodes('CONmtCheck')
+    checked = 0
+    for (dec, binding) in (('COSyncUpdate', {'sync': 1, 'frm': 1, 'frm->Identifier': 0, 'sync->CobId': 0}),):
+        pe = PEval(m, dec)
+        trs = pe.run(dict(binding))
+        claims0 = any(t.ret is None or t.ret >= 0 for t in trs)
+        site = '%s: identifier 0 while its cached identifier is 0' % dec
+        if not claims0:
+            ctx.ob(P, 'RF2-cascade-order', f, site, 'never claims identifier 0', nontrivial=False)
+            continue
+        for dn in call_nodes(dec):
+            checked += 1
+            after = flow.reach_from(g, dn)
+            before_ok = any(dn in flow.reach_from(g, nn) for nn in nmt_nodes)
+            wrong = [nn for nn in nmt_nodes if nn in after]
+            s2 = '%s: %s is consulted after CONmtCheck' % (m.loc(f, g.nodes[dn].line), dec)
+            if wrong or not before_ok:
+                ctx.ob(P + ['C16'], 'RF2-cascade-order', f, s2, None)
+                ctx.find(P + ['C16'], 'RF2-cascade-order', f, 'before-nmt:%s' % dec, m.loc(f, g.nodes[dn].line),
+                         '%s claims identifier 0 while its cached identifier is 0 (not configured / after reset communication) and is '
+                         'consulted before CONmtCheck in the dispatch cascade: every NMT command is consumed as a %s frame and '
+                         'the node stops following start / stop / reset' % (dec, dec.replace('CO', '').replace('Update', '').upper()))
+            else:
+                ctx.ob(P + ['C16'], 'RF2-cascade-order', f, s2, 'NMT decoder first')
+    ctx.require_min(P, 'RF2-cascade-order', len(nmt_nodes), 1, 'CONmtCheck call in the dispatch cascade')
+
+
 def run(ctx):
     nmt_check_table(ctx)
     dispatch_cascade(ctx)
+    cascade_order(ctx)
     producer_gates(ctx)
     mode_writer(ctx)
     hb_code_table(ctx)
